@@ -174,17 +174,20 @@ def run_scenario(sc, chooser=None, seed=0, max_steps=8000, horizon_ticks=1400):
 
     def daemon_body():
         tillmod.daemon(please_stop)
+        st["daemon_returned"] = True        # not reached when the run is torn down under it
     dvt = sched.spawn("t0", daemon_body, background=True, timekeeper=True)
 
     def body(ti, ops):
         def run():
             last = None
+            last_deadline = None
             for op in ops:
                 if op[0] == "till":
                     sched.until(op[1] / TICK)
                     now = int(round(sched.clock * TICK))
                     sched.note("call", ti, "till", op[2])
                     n_before = st["nextid"]
+                    last_deadline = now + op[2]
                     t = tillmod.Till(seconds=op[2] / TICK)
                     if t is signals.DONE:
                         st["returned_done"].append((ti, op[2], now))
@@ -193,7 +196,9 @@ def run_scenario(sc, chooser=None, seed=0, max_steps=8000, horizon_ticks=1400):
                         last = t
                 elif op[0] == "wait" and last is not None:
                     sched.note("waiton", ti)
+                    st.setdefault("waiting_on", {})[ti] = last_deadline
                     last.wait()
+                    st["waiting_on"].pop(ti, None)
         return run
 
     for ti, ops in enumerate(sc["threads"], start=1):
@@ -218,6 +223,11 @@ def run_scenario(sc, chooser=None, seed=0, max_steps=8000, horizon_ticks=1400):
         signals.Signal.__init__ = orig_sig_init
         tillmod.Till.locker = ds.SchedLock()
     stuck = sorted(int(vt.name[1:]) for vt in sched.stuck if vt.name.startswith("t") and vt.name != "t0")
+    # a thread still waiting at the horizon on a Till that is not overdue (deadline within one interval of the end of the run, or
+    # later) is simply waiting: creating that Till has returned, which is all the model knows about the thread
+    end_tick = int(round(sched.clock * TICK))
+    stuck = [t for t in stuck if not (st.get("waiting_on", {}).get(t) is not None and st["waiting_on"][t] + I_TICKS >= end_tick
+                                      and not ds.raw(please_stop, "_go"))]
     lines, info = to_lines(sched.events)
     lines.append(" ".join(["end", outcome] + [str(t) for t in stuck]))
     fired = sorted(i for i, s in st["created"].items() if ds.raw(s, "_go"))
@@ -226,7 +236,7 @@ def run_scenario(sc, chooser=None, seed=0, max_steps=8000, horizon_ticks=1400):
     viol = st["viol"]
     if not st["interval_ok"]:
         viol.append("C13: till.INTERVAL is not 0.1")
-    daemon_done = dvt.state == "done"
+    daemon_done = bool(st.get("daemon_returned"))
     # ---- monitors ------------------------------------------------------------------------------------
     for i, (dl, reg, ftime, normal) in info["timers"].items():
         if ftime is not None and normal and ftime < dl:
